@@ -1,6 +1,7 @@
 """C09 — the command stream sent at deploy is exactly the patch that was shown (DESIGN §3.C09)."""
 from __future__ import annotations
 
+import json
 import re
 
 from .. import core, pipeline as P
@@ -28,24 +29,48 @@ META = {
             "and the command carries that rule's timeout/dialogs or (30 s, none); it is refused exactly when the rule has a "
             "%send_nl=0 dialog (C09_match_rule, C09_match_rule_disjoint, C09_cmd_params, C09_cmd_refused; with overlapping "
             "siblings the code descends into the last match: C09_first_match_refuted); the predicate P_C09 is satisfied by the "
-            "model's own outputs (C09_model_formatter, C09_model_stream). Correspondence (testing): Coq compares the model with "
+            "model's own outputs (C09_model_formatter, C09_model_stream). Any number of apply logics in one patch: the model's "
+            "groupby is THE decomposition into maximal runs of equal (before, after) keys (exists and is unique: C09_groupby_runs); "
+            "the command list is a sequence of sessions whose paths, concatenated, are the cmd_paths sequence in order, every "
+            "path inside the session of its own rule's apply logic, wrapper commands at level 0 with the parameters of the rule "
+            "matching them, neighbouring sessions with different wrappers; with the wrapper commands removed it is one command "
+            "per path at level |path|-1 (C09_deploy_sessions, C09_deploy_body_general, C09_session_wrapper); frame property: "
+            "position i of the stripped stream carries text, level and (unique chain) timeout/dialogs of the rule chain of path i, "
+            "and the same path gets the same command in any two patches at any positions (C09_own_chain, C09_frame; the last "
+            "element alone does not determine the parameters: C09_last_element_insufficient); the predicate clause c9_groups "
+            "(expected stream for any number of apply logics) holds for the model's output (C09_model_groups). Deploy rules "
+            "are read with the extended rule language of Model/PatternY.v, a conservative extension of the plain one at row, "
+            "match_deploy_rule and apply_deploy_rulebook level (C09_hit_y_conservative, C09_deploy_y_conservative, C09_fast_hit_y). "
+            "Dialog questions / ignore texts (MakeMessageMatcher, RulebookQuestionHandler): a plain text accepts exactly the "
+            "contents holding it up to whitespace and letter case; a /re/ text accepts the contents with a prefix in the "
+            "expression's language, case ignored; the answer is that of the first accepting dialog; the Question handed to the "
+            "driver is a regexp exactly when the text is written between slashes (C09_dialog_plain, C09_dialog_plain_self, "
+            "C09_dialog_regex, C09_dialog_first, C09_question_kind, C09_question_kind_matcher, C09_model_dialogs). "
+            "Correspondence (testing): Coq compares the model with "
             "formatter.patch, formatter.cmd_paths (with contexts) and annet.deploy.apply_deploy_rulebook on the shipped "
             "test_patch corpus, PatchTrees from the real _diff_and_patch on random rulebooks, synthetic ones (depth<=4, empty child "
-            "trees, vendor block headers and near misses, contexts), all block-structured vendors x {0,1}^2, random and shipped "
-            "deploy rulebooks, and evaluates P_C09 on the real outputs.",
+            "trees, vendor block headers and near misses, contexts), a family with nested deploy rules and the same command text "
+            "under several blocks, a family with interleaved apply logics, all block-structured vendors x {0,1}^2, random and "
+            "shipped deploy rulebooks, and evaluates P_C09G (= the clauses of P_C09 + c9_groups) on the real outputs; and the "
+            "dialog model with the real MakeMessageMatcher / RulebookQuestionHandler on every shipped rule with dialogs and "
+            "synthetic ones.",
     "technique": "Coq induction over block streams / patch trees / rule chains, finite vm_compute proof over the regenerated "
                  "apply() table; vm_compute differential check on real outputs",
     "note": "Theorems are about the model; the tie to the code is the regenerated Gen/Src_apply.v table and the correspondence "
             "run (testing). Open known finding: a deploy rule with a %send_nl=0 dialog (shipped cisco/nexus `no username ...`) "
-            "makes apply_deploy_rulebook raise. Not modelled: RouterOS/Juniper/Nokia flattening (not block structured), the "
-            "regular expressions of /.../ dialog questions, `ignore:` messages; rule patterns restricted to the plain rule "
-            "language of Model/Pattern.v (5 shipped huawei rules with (a|b) groups are reported as unmodelled). Patches with "
-            "equal sibling rows are outside the property's domain (11 shipped corpus samples, listed in the evidence). "
-            "C09_model_stream covers the single-apply-logic case; several apply logics in one patch are covered by "
-            "C09_deploy_groups and a weaker predicate clause.",
+            "makes apply_deploy_rulebook raise. Not modelled: RouterOS/Juniper/Nokia flattening (not block structured); deploy-rule "
+            "rows outside the extended rule language (2 shipped huawei rows whose group holds a blank: "
+            "`undo (ftp|FTP) [ipv6] (server source|server-source)`; listed in the evidence, cases touching them are skipped); "
+            "/re/ questions outside the dialog language (a group or set holding a blank, a top-level `|` beside blanks, anchors, "
+            "counted repetition: none shipped; all 6 shipped /re/ forms are modelled); non-ASCII message texts. The `ignore:` "
+            "list of a rule is only stored by annet, never consulted: its matchers are modelled, there is no consumer to model. "
+            "Patches with equal sibling rows are outside the property's domain (shipped corpus samples listed in the evidence). "
+            "c9_groups and the timeout/dialog comparison apply where the rule chain of every path is unique (otherwise the "
+            "weaker subsequence clause of P_C09 applies; the code then descends into the last matching sibling: "
+            "C09_first_match_refuted).",
 }
 IMPORTS = ("From Annet Require Import Base.Str Model.Pattern Model.Order Model.Patch Model.Blocks Gen.Src_apply "
-           "Model.Deploy Spec.P_C09.")
+           "Model.Deploy Model.DeployY Model.Dialog Spec.P_C09 Spec.P_C09G.")
 TY = "obs09"
 
 BLOCK_VENDORS = ["huawei", "h3c", "optixtrans", "cisco", "nexus", "iosxr", "arista", "aruba", "b4com", "pc"]
@@ -70,6 +95,9 @@ QUESTIONS = ["Continue? [Y/N]:", "/.*sure\\?/", "Are you sure", "Destination fil
 ANSWERS = ["Y", "N", "yes", "startup-config"]
 TIMEOUTS_MS = [1000, 5000, 60000, 120000, 2500, 600000]
 APPLY_NAMES = {0: "common.apply", 1: "aruba.ap_env.apply"}
+# one-word regexps of the extended rule language (Model/PatternX.v) with words inside / just outside their language
+RE_WORDS = {"(ftp|FTP)": ["ftp", "FTP", "ftpd", "Ftp"], "(?:permit|deny)": ["permit", "deny", "permits"],
+            "vlans?": ["vlan", "vlans", "vlanx"], "(udp|tcp)": ["udp", "tcp", "tc"]}
 
 
 def fam_key(vendor: str) -> str:
@@ -96,6 +124,8 @@ def gen_dpat(rng, used_first: set, overlap_ok: bool) -> str:
         toks = [first]
         for _ in range(rng.choice([0, 1, 1, 2])):
             toks.append(rng.choice(WORDS + ["*", "*", "*"]))
+        if rng.random() < 0.08:
+            toks.insert(rng.randrange(len(toks) + 1), rng.choice(list(RE_WORDS)))
         if rng.random() < 0.12:
             toks.append("~")
         used_first.add(first)
@@ -170,7 +200,33 @@ def coq_drule(r: dict, default_ms: int) -> str:
         cnat(r["apply"]), clist(coq_drule(k, default_ms) for k in r["kids"])]) + ")")
 
 
+MODELLED: dict[str, bool] = {}
+
+
+def ensure_modelled(pats) -> None:
+    """row_modelled (Model/DeployY.v: the rule row is inside the extended rule language) decided by Coq, cached"""
+    todo = sorted({p for p in pats if p not in MODELLED})
+    for k in range(0, len(todo), 400):
+        chunk = todo[k:k + 400]
+        out = core.coq_eval(ID, IMPORTS, ["map row_modelled " + clist(cstr(p) for p in chunk)], tag=f"modelled_{k}")[0]
+        vals = re.findall(r"true|false", out)
+        if len(vals) != len(chunk):
+            raise core.CheckFailure("unexpected output of row_modelled: " + out[:300])
+        for p, v in zip(chunk, vals):
+            MODELLED[p] = v == "true"
+
+
 def modelled_pat(p: str) -> bool:
+    if p not in MODELLED:
+        ensure_modelled([p])
+    return MODELLED[p]
+
+
+def compiled_pats(comp: list[dict]) -> list[str]:
+    return [x for c in comp for x in [pat_of_id(c["id"])] + compiled_pats(c["kids"])]
+
+
+def plain_pat(p: str) -> bool:
     toks = p.split(" ")
     for i, t in enumerate(toks):
         if t == "*" or (t == "~" and i == len(toks) - 1):
@@ -213,6 +269,11 @@ def inst_row(rng, pat: str) -> str:
             ws.append(rng.choice(P.VAL))
         elif t == "~":
             ws.extend(rng.sample(P.VAL, rng.randint(1, 2)))
+        elif t in RE_WORDS:
+            ws.append(rng.choice(RE_WORDS[t]))
+        elif re.fullmatch(r"\((?:\?:)?[^()]*\)", t):
+            alts = t[1:-1].removeprefix("?:").split("|")
+            ws.append(rng.choice(alts + [alts[0] + "x"]))
         else:
             ws.append(t)
     if not pat.endswith("~") and rng.random() < 0.3:
@@ -352,6 +413,18 @@ def leaf(row, ctx=None):
     return {"row": row, "context": ctx or {}, "child": None}
 
 
+TWIN_RULES = [
+    {"pat": "bgp *", "timeout_ms": None, "dialogs": [], "ifctx": [], "apply": 0, "kids": [
+        {"pat": "shutdown", "timeout_ms": 120000, "ifctx": [], "apply": 0, "kids": [],
+         "dialogs": [{"q": "Warning: All BGP sessions will be closed. Continue? [Y/N]:", "a": "Y", "nl": True}]}]},
+    {"pat": "interface *", "timeout_ms": None, "dialogs": [], "ifctx": [], "apply": 0, "kids": [
+        {"pat": "undo portswitch", "timeout_ms": 90000, "dialogs": [], "ifctx": [], "apply": 0, "kids": []}]}]
+EX2_RULES = [{"pat": "~", "timeout_ms": None, "dialogs": [], "ifctx": [["block", "ap-env"]], "apply": 1, "kids": []},
+             {"pat": "write memory", "timeout_ms": 45000, "dialogs": [], "ifctx": [], "apply": 0, "kids": []}]
+EX2_STREAM = ["name:a", "write memory", "conf t", "usb-port-disable", "end", "commit apply", "write memory", "iap-master",
+              "write memory"]
+
+
 def witness_cases(shipped_rules: dict) -> list[dict]:
     """the witnesses of the *_refuted theorems and of the known finding, replayed on the real code on every run"""
     fm = [{"pat": "bgp *", "timeout_ms": 5000, "dialogs": [], "ifctx": [], "apply": 0,
@@ -368,14 +441,25 @@ def witness_cases(shipped_rules: dict) -> list[dict]:
          "patch": [{"row": "bgp 1", "context": {}, "child": [leaf("peer x")]}]},
         {"kind": "witness", "witness": "known:send_nl", "vendor": "cisco", "drules": shipped_rules["cisco"]["rules"],
          "deploying": None, "patch": [leaf("no username bob privilege 15 secret 5 xyz")]},
+        # Properties/C09.v twin_rules: the same command text under two blocks, two rule chains
+        {"kind": "witness", "witness": "C09_last_element_insufficient", "vendor": "huawei", "drules": TWIN_RULES,
+         "deploying": drules_text(TWIN_RULES),
+         "patch": [{"row": "interface 100GE1/0/1", "context": {}, "child": [leaf("shutdown")]},
+                   {"row": "bgp 65000", "context": {}, "child": [leaf("shutdown")]}]},
+        # Properties/C09.v ex2_deploy: two apply logics interleaved, three sessions
+        {"kind": "witness", "witness": "ex2_deploy", "vendor": "aruba", "drules": EX2_RULES, "deploying": drules_text(EX2_RULES),
+         "patch": [leaf("name:a", {"block": "ap-env"}), leaf("usb-port-disable"), leaf("iap-master", {"block": "ap-env"})]},
     ]
 
 
 def gen_cases(ctx, shipped_rules: dict) -> list[dict]:
     rng = ctx.rng("c09")
     n_syn, n_pipe, n_ship = (8000, 2500, 1200) if ctx.thorough else (600, 220, 120)
-    cases = []
-    for i in range(n_syn):
+    n_twin, n_sess = (800, 800) if ctx.thorough else (110, 110)
+    cases = [gen_twin(rng) for _ in range(n_twin)] + [gen_sessions(rng) for _ in range(n_sess)]
+    n_syn += len(cases)
+    n_new = len(cases)
+    for i in range(n_syn - n_new):
         v = rng.choice(BLOCK_VENDORS)
         drules = gen_drules(rng)
         flat = flatten_rules(drules)
@@ -387,7 +471,7 @@ def gen_cases(ctx, shipped_rules: dict) -> list[dict]:
                       "dup": dup})
     while len(cases) < n_syn + n_pipe:
         c = P.gen_case(rng, vendors=P.BLOCK_VENDORS)
-        pats = [r["pat"] for r in flatten_rules(c["rules"]) if not r["ign"] and modelled_pat(r["pat"])]
+        pats = [r["pat"] for r in flatten_rules(c["rules"]) if not r["ign"] and plain_pat(r["pat"])]
         drules = gen_drules(rng, base_pats=pats or None)
         cases.append({"kind": "pipeline", "vendor": c["vendor"], "drules": drules, "deploying": drules_text(drules),
                       "pipeline": {k: c[k] for k in ("patching", "ordering", "old", "new")}})
@@ -395,17 +479,108 @@ def gen_cases(ctx, shipped_rules: dict) -> list[dict]:
         v = rng.choice(SHIPPED)
         rules = shipped_rules[v]["rules"]
         # wrap the shipped rules' own commands in blocks so that both the chain and the "stay" case occur
-        patch = gen_patch(rng, v, rules, rules, avoid=("ftp", "FTP"))
+        patch = gen_patch(rng, v, rules, rules)
         if v == "aruba" and rng.random() < 0.7:
             for it in patch:
                 if rng.random() < 0.6:
                     it["context"] = {"block": "ap-env"}
         cases.append({"kind": "shipped", "vendor": v, "drules": rules, "deploying": None, "patch": patch})
+    # generated rule rows with one-word regexps must be inside the modelled language (they are, by construction)
+    # (rows of the plain language are modelled: C09_hit_y_conservative; were one not, the correspondence would alarm)
+    gen_rules = [r for c in cases if c["deploying"] is not None for r in flatten_rules(c["drules"]) if not plain_pat(r["pat"])]
+    ensure_modelled(r["pat"] for r in gen_rules)
+    for r in gen_rules:
+        if not MODELLED[r["pat"]]:
+            raise core.CheckFailure(f"the generator produced a deploy rule row outside the modelled language: {r['pat']!r}")
     return cases
+
+
+def mk_rule(pat, timeout_ms=None, dialogs=(), ifctx=(), apply=0, kids=()):
+    return {"pat": pat, "timeout_ms": timeout_ms, "dialogs": [dict(d) for d in dialogs], "ifctx": [list(x) for x in ifctx],
+            "apply": apply, "kids": list(kids)}
+
+
+def gen_twin(rng) -> dict:
+    """nested deploy rules and the SAME command text under several blocks (and at top level): every occurrence must get
+    the parameters of the rule chain of its own path (match_deploy_rule walks the whole path)"""
+    v = rng.choice(BLOCK_VENDORS)
+    heads = rng.sample(["bgp", "interface", "ospf", "vlan", "aaa", "isis"], 4)
+    cmd_pat = rng.choice(["shutdown", "undo enable", "reset *", "mode *", "peer * enable", "undo (ftp|FTP) server"])
+    cmd = inst_row(rng, cmd_pat) if rng.random() < 0.5 else " ".join(
+        {"*": "x"}.get(t, RE_WORDS.get(t, [t])[0]) for t in cmd_pat.split())
+
+    def params():
+        return {"timeout_ms": rng.choice(TIMEOUTS_MS + [None]),
+                "dialogs": [{"q": q, "a": rng.choice(ANSWERS), "nl": True} for q in rng.sample(QUESTIONS, rng.choice([0, 1, 1, 2]))]}
+    rules = []
+    for k, h in enumerate(heads[:3]):
+        x = rng.random()
+        if k == 0 or x < 0.5:
+            kids = [mk_rule(cmd_pat, **params())]
+            if rng.random() < 0.3:
+                kids.insert(rng.randrange(2), mk_rule(rng.choice(WORDS) + " *", **params()))
+        elif x < 0.75:
+            kids = [mk_rule(rng.choice(WORDS) + " *", **params())]      # the command falls to the defaults inside this block
+        else:
+            kids = []                                                   # childless header rule: defaults inside
+        rules.append(mk_rule(h + " *", kids=kids, **(params() if rng.random() < 0.3 else {})))
+    if rng.random() < 0.5:
+        rules.insert(rng.randrange(len(rules) + 1), mk_rule(cmd_pat, **params()))      # and a top-level rule for the text
+    rng.shuffle(rules)
+    blocks = []
+    for h in heads:                                                     # heads[3] has no rule at all
+        for _ in range(rng.choice([1, 1, 2])):
+            kids = [leaf(cmd)]
+            if rng.random() < 0.5:
+                kids.insert(rng.randrange(2), leaf(rng.choice(WORDS) + " " + rng.choice(P.VAL)))
+            if rng.random() < 0.2:
+                kids.append({"row": "sub " + rng.choice(P.VAL), "context": {}, "child": [leaf(cmd)]})
+            blocks.append({"row": h + " " + rng.choice(P.VAL) + str(len(blocks)), "context": {}, "child": kids})
+    if rng.random() < 0.5:
+        blocks.append(leaf(cmd))
+    rng.shuffle(blocks)
+    return {"kind": "twin", "vendor": v, "drules": rules, "deploying": drules_text(rules), "patch": blocks, "dup": False}
+
+
+def gen_sessions(rng) -> dict:
+    """several apply logics in one patch, interleaved: the stream is one session per maximal run of commands asking for
+    the same wrapper, the patch commands stay in patch order"""
+    v = rng.choice(BLOCK_VENDORS)
+    heads = rng.sample(WORDS, rng.choice([2, 3, 4]))
+    rules = []
+    for k, h in enumerate(heads):
+        ap = k % 2 if k < 2 else rng.choice([0, 1])
+        kids = []
+        if rng.random() < 0.3:
+            kids = [mk_rule(rng.choice(WORDS) + " *", timeout_ms=rng.choice(TIMEOUTS_MS), apply=rng.choice([0, 1]))]
+        rules.append(mk_rule(h + rng.choice([" *", " ~", ""]), timeout_ms=rng.choice(TIMEOUTS_MS + [None]), apply=ap, kids=kids))
+    by_ctx = rng.random() < 0.3
+    if by_ctx:      # the shipped aruba form: the apply logic chosen by the row context
+        rules.insert(0, mk_rule("~", ifctx=[["block", "ap-env"]], apply=1))
+    if rng.random() < 0.3:      # a rule for a wrapper command
+        rules.append(mk_rule(rng.choice(["write memory", "conf t", "commit", "system-view", "q", "end"]),
+                             timeout_ms=rng.choice(TIMEOUTS_MS)))
+    rng.shuffle(rules)
+    items, seen = [], set()
+    for _ in range(rng.randint(3, 8)):
+        r = rng.choice([x for x in rules if x["pat"] != "~" and not x["pat"].startswith(("write", "conf", "commit", "system", "q", "end"))])
+        row = inst_row(rng, r["pat"])
+        if rng.random() < 0.15:
+            row = rng.choice(["zzz", "yyy"]) + " " + rng.choice(P.VAL)
+        if row in seen:
+            continue
+        seen.add(row)
+        it = {"row": row, "context": {"block": "ap-env"} if by_ctx and rng.random() < 0.5 else {}, "child": None}
+        if rng.random() < 0.25:
+            it["child"] = [leaf(inst_row(rng, k["pat"])) for k in r["kids"]] + [leaf("sub " + rng.choice(P.VAL))]
+        items.append(it)
+    return {"kind": "sessions", "vendor": v, "drules": rules, "deploying": drules_text(rules), "patch": items, "dup": False}
 
 
 def payload(c: dict, atoms, opaque) -> dict:
     d = {"vendor": c["vendor"], "deploying": c["deploying"], "combos": COMBOS, "atoms": atoms, "opaque": opaque}
+    if c["deploying"] is None and UNMODELLED.get(c["vendor"]):
+        d["unmodelled"] = UNMODELLED[c["vendor"]]
     if "corpus" in c:
         d["corpus"] = c["corpus"]
     elif "pipeline" in c:
@@ -415,7 +590,9 @@ def payload(c: dict, atoms, opaque) -> dict:
     return d
 
 
-CLAUSES = ["shown", "exits", "indent", "raised", "body", "params", "wrapper", "no_commit"]
+UNMODELLED: dict[str, list] = {}      # vendor -> rule rows of the shipped deploy rulebook outside the modelled language
+
+CLAUSES = ["shown", "exits", "indent", "raised", "body", "params", "groups", "wrapper", "no_commit"]
 AGREE = ["lines09", "paths09", "wrapper09", "deploy09"]
 WHAT = {
     "shown": "lines of formatter.patch differ from (depth, command) of formatter.cmd_paths: what is sent is not what was shown",
@@ -424,6 +601,9 @@ WHAT = {
     "raised": "apply_deploy_rulebook raises 'not supported false send_nl' for a command whose deploy rule has a %send_nl=0 dialog",
     "body": "the command list is not wrapper-before ++ one command per path (level = |path|-1) ++ wrapper-after",
     "params": "a command does not carry the timeout/dialogs of the unique deploy rule chain matching its path (or the defaults)",
+    "groups": "the command list is not: for each maximal run of adjacent commands whose deploy rules ask for the same session "
+              "wrapper, that wrapper's before commands, the run's commands in patch order, its after commands (commands moved "
+              "across sessions, merged or split sessions, or the wrapper of another apply logic)",
     "wrapper": "the session wrapper of apply() holds a non-session command, a commit with do_commit=False or a save with do_finalize=False",
     "no_commit": "a commit command is sent although do_commit is False",
 }
@@ -451,7 +631,7 @@ def _case_files(preds, terms, *, per_file, tag, extra_defs=""):
         core.NPROC = saved
 
 
-STAGE1 = {"ok": "fun o => holds_lenient_C09 o && agree_C09 o",          # everything but "a run raised"
+STAGE1 = {"ok": "fun o => holds_lenient_C09G o && agree_C09G o",          # everything but "a run raised"
           "raised": "fun o => negb (wf_C09 o) || c9_raised o",
           "wf": "wf_C09", "collapsed": "fun o => negb (dup_collapsed o)"}
 
@@ -489,15 +669,176 @@ def evaluate(cases, outs, default_ms, tag="cases"):
         res[f"agree_{a}"] = []
     failing = res["ok"][:40]
     if failing:
-        preds = {"holds": "holds_lenient_C09"}
-        preds.update({f"agree_{a}": f"agree_{a}" for a in AGREE})
-        preds.update({f"cl_{k}": (f"fun o => negb (wf_C09 o) || c9_{k} o" if k not in ("body", "params") else
-                                  f"fun o => negb (wf_C09 o) || streams_lenient {'cmd_fits_plain' if k == 'body' else 'cmd_fits'} o")
+        preds = {"holds": "holds_lenient_C09G"}
+        preds.update({f"agree_{a}": ("agree_deploy09_y" if a == "deploy09" else f"agree_{a}") for a in AGREE})
+        # diagnosis: `groups` = the session structure (texts and levels), `params` = timeout/dialogs anywhere
+        detail = {"body": "c9g_body o", "params": "c9g_params o && (negb (c9g_sessions o) || c9g_groups o)", "groups": "c9g_sessions o"}
+        preds.update({f"cl_{k}": f"fun o => negb (wf_C09 o) || ({detail.get(k, f'c9_{k} o')})"
                       for k in CLAUSES if k != "raised"})
         det = _case_files(preds, [terms[j] for j in failing], per_file=5, tag=tag + "_detail", extra_defs=defs)
         for k, v in det.items():
             res[k] = sorted(set(res.get(k, [])) | {failing[j] for j in v})
     return res
+
+
+# ------------------------------------------------------------------ dialog questions / ignore texts
+
+DLG_EXTRA = ["/.*sure\\?/", "/Warning: .* Continue/", "/", "/Overwrite file \\[.*\\]\\?/", "/a b|c d/", "/x{2,3}y/", "/(yes|no) please/",
+             "/^anchored/", "/Tab\\there/", "Are you sure", "are  you SURE ?", "Destination filename [startup-config]?",
+             "/[Cc]onfirm/", "/.+\\[confirm\\]/", "/Delete \\S+ \\?/"]
+
+
+def unescape_re(src: str, rng) -> str:
+    """a text the /re/ source is meant to accept (best effort: the check compares model and code on whatever comes out)"""
+    out, i = [], 0
+    filler = ["", "x", "GE1/0/1 and GE1/0/2", "the old  one", "Y"]
+    while i < len(src):
+        ch = src[i]
+        nxt = src[i + 1] if i + 1 < len(src) else ""
+        if ch == "\\" and nxt:
+            out.append({"S": "k1", "s": " ", "d": "7", "w": "w"}.get(nxt, nxt) if nxt in "SsdwDW" else nxt)
+            i += 2
+            if i < len(src) and src[i] in "+*":
+                i += 1
+            continue
+        if ch == "." and nxt in ("*", "+"):
+            out.append(rng.choice(filler) or ("" if nxt == "*" else "z"))
+            i += 2
+            continue
+        if nxt == "?" and ch not in "\\)":
+            if rng.random() < 0.5:
+                out.append(ch)
+            i += 2
+            continue
+        if ch == "[" and "]" in src[i:]:
+            j = src.index("]", i)
+            out.append(src[i + 1] if src[i + 1] != "^" else "q")
+            i = j + 1
+            continue
+        if ch == "(" and ")" in src[i:]:
+            j = src.index(")", i)
+            out.append(rng.choice(src[i + 1:j].removeprefix("?:").split("|")))
+            i = j + 1
+            continue
+        out.append(ch)
+        i += 1
+    return "".join(out)
+
+
+def perturb(rng, t: str) -> str:
+    x = rng.random()
+    if x < 0.2:
+        return t
+    if x < 0.35:
+        return t.swapcase()
+    if x < 0.5:
+        return t.replace(" ", rng.choice(["", "  ", "\n", " \t "]))
+    if x < 0.6 and len(t) > 2:
+        k = rng.randrange(len(t))
+        return t[:k] + t[k + 1:]                                       # near miss: one character dropped
+    if x < 0.75:
+        return rng.choice(["", "Info: ", "\n", "%% "]) + t + rng.choice(["", " ", " [Y/N]:", "\nmore"])
+    if x < 0.85:
+        return rng.choice(["  ", "\r\n", "\x1c"]) + t + rng.choice(["  \n", "\x1f", ""])
+    return t.upper() if rng.random() < 0.5 else t.lower()
+
+
+def dlg_contents(rng, questions: list[str], pool: list[str]) -> list[str]:
+    out = []
+    for q in questions:
+        base = unescape_re(q[1:-1].strip(), rng) if (q.startswith("/") and q.endswith("/")) else q
+        for _ in range(3):
+            out.append(perturb(rng, base))
+    out += [perturb(rng, unescape_re(x[1:-1], rng) if x.startswith("/") and x.endswith("/") else x) for x in rng.sample(pool, min(3, len(pool)))]
+    out.append(rng.choice(["", " ", "Error: unrecognized command", "y"]))
+    seen, res = set(), []
+    for c in out:
+        if c not in seen and all(ord(ch) < 127 for ch in c):
+            seen.add(c)
+            res.append(c)
+    return res
+
+
+def cstr_any(t: str) -> str:
+    """Coq string term for an ASCII text that may hold control characters"""
+    parts, cur = [], ""
+    for ch in t:
+        o = ord(ch)
+        if o > 126:
+            raise core.CheckFailure(f"non-ASCII character in a dialog content: {t!r}")
+        if o < 32 and ch not in "\n\t":
+            if cur:
+                parts.append(cstr(cur))
+                cur = ""
+            parts.append(f"(String (Ascii.ascii_of_nat {o}) EmptyString)")
+        else:
+            cur += ch
+    if cur or not parts:
+        parts.append(cstr(cur))
+    return parts[0] if len(parts) == 1 else "(" + " ++ ".join(parts) + ")%string"
+
+
+def coq_obsdlg(o: dict) -> str:
+    runs = clist(f"(RunDlg {cstr_any(r['content'])} {copt(None if r['answer'] is None else cstr(r['answer']))} "
+                 f"{clist(cbool(b) for b in r['hits'])} {clist(cbool(b) for b in r['ign'])})" for r in o["runs"])
+    dl = clist(f"(Dlg {cstr(q)} {cstr(a)} {cbool(nl)})" for q, a, nl in o["dialogs"])
+    return f"(ObsDlg {dl} {clist(cstr(t) for t in o['ignore'])} {runs})"
+
+
+def run_dialogs(ctx, rendered: dict) -> dict:
+    """MakeMessageMatcher / RulebookQuestionHandler of the real code against Model/Dialog.v: every rule of the shipped
+    deploy rulebooks that has dialogs, and synthetic rules (plain and /re/ questions, ignore: texts, near misses)"""
+    rng = ctx.rng("c09-dialogs")
+
+    def with_dialogs(comp):
+        for c in comp:
+            if c["dialogs"]:
+                yield c
+            yield from with_dialogs(c["kids"])
+    shipped = [(v, c) for v, r in rendered.items() for c in with_dialogs(r["compiled"])]
+    pool = sorted({q for _, c in shipped for q, _, _ in c["dialogs"]} | set(QUESTIONS) | set(DLG_EXTRA))
+    cases = []
+    for v, c in shipped:
+        qs = [q for q, _, _ in c["dialogs"]]
+        text = "cmd\n" + "\n".join(f"    dialog: {q} ::: {a}" + ("" if nl else " %send_nl=0") for q, a, nl in c["dialogs"])
+        cases.append({"dlg": text, "vendor": v, "contents": dlg_contents(rng, qs, pool), "kind": "shipped", "rule": c["id"]})
+    for _ in range(600 if ctx.thorough else 90):
+        qs = rng.sample(pool, rng.choice([1, 1, 2, 3]))
+        igs = rng.sample(pool, rng.choice([0, 0, 1, 2]))
+        text = "cmd\n" + "\n".join([f"    dialog: {q} ::: {rng.choice(ANSWERS)}" for q in qs] + [f"    ignore: {t}" for t in igs])
+        cases.append({"dlg": text, "vendor": "huawei", "contents": dlg_contents(rng, qs + igs, pool), "kind": "synthetic"})
+    outs = core.run_impl_sharded("c09_runner.py", [{k: c[k] for k in ("dlg", "vendor", "contents")} for c in cases])
+    for c, o in zip(cases, outs):
+        if "fatal" in o:
+            raise core.CheckFailure("c09 runner failed on a dialog case: " + o["fatal"][-600:])
+    terms = [coq_obsdlg(o) for o in outs]
+    res = core.run_case_files(ID, "obsdlg", IMPORTS, {"holds": "holds_dlg", "modelled": "modelled_dlg",
+                                                      "agree": "fun o => negb (modelled_dlg o) || agree_dlg o"},
+                              terms, per_file=60, tag="dialogs")
+    for j in res["holds"][:1]:
+        ctx.add_violation(core.Violation(
+            signature="C09/dialog-answer-not-first-match",
+            what="RulebookQuestionHandler does not answer with the first dialog whose question accepts the content",
+            replay={"case": cases[j], "impl": outs[j], "dialog_case": True}))
+    if not res["holds"]:
+        for j in res["agree"][:1]:
+            ctx.add_violation(core.Violation(
+                signature="C09/model-impl-disagree/dialogs",
+                what="Coq model (Model/Dialog.v) and MakeMessageMatcher / RulebookQuestionHandler differ",
+                replay={"case": cases[j], "impl": outs[j], "dialog_case": True}, no_input=True))
+    unm_sh = sorted({q for j in res["modelled"] if cases[j]["kind"] == "shipped" for q, _, _ in outs[j]["dialogs"]
+                     if q.startswith("/")})
+    return {
+        "cases": len(cases), "contents": sum(len(o["runs"]) for o in outs),
+        "shipped_rules_with_dialogs": len(shipped),
+        "shipped_regex_questions": sorted({q for _, c in shipped for q, _, _ in c["dialogs"] if q.startswith("/") and q.endswith("/")}),
+        "shipped_cases_with_unmodelled_question": sum(1 for j in res["modelled"] if cases[j]["kind"] == "shipped"),
+        "shipped_regex_questions_in_unmodelled_cases": unm_sh,
+        "synthetic_cases_with_unmodelled_text": sum(1 for j in res["modelled"] if cases[j]["kind"] == "synthetic"),
+        "contents_answered": sum(1 for o in outs for r in o["runs"] if r["answer"] is not None),
+        "contents_unanswered": sum(1 for o in outs for r in o["runs"] if r["answer"] is None),
+        "disagreements": len(res["agree"]),
+    }
 
 
 def default_timeout_ms() -> int:
@@ -509,15 +850,21 @@ def run(ctx):
     core.proof_stage(ctx, THEOREM_FILE)
     atoms, opaque = table_atoms()
     default_ms = default_timeout_ms()
-    rendered = core.run_impl("c09_runner.py", [{"render": v} for v in SHIPPED])
+    all_vendors = SHIPPED + [v for v in BLOCK_VENDORS if v not in SHIPPED]
+    rendered = core.run_impl("c09_runner.py", [{"render": v} for v in all_vendors])
     shipped_rules, unmodelled = {}, {}
-    for v, r in zip(SHIPPED, rendered):
+    for v, r in zip(all_vendors, rendered):
         if "fatal" in r:
             raise core.CheckFailure("c09 runner failed to render the shipped deploy rulebook: " + r["fatal"][-600:])
+    ensure_modelled(p for r in rendered for p in compiled_pats(r["compiled"]))
+    UNMODELLED.clear()
+    for v, r in zip(all_vendors, rendered):
         um: list = []
         shipped_rules[v] = {"rules": rules_of_compiled(r["compiled"], um)}
         if um:
             unmodelled[v] = um
+            UNMODELLED[v] = um
+    dlg = run_dialogs(ctx, dict(zip(all_vendors, rendered)))
     cases = gen_cases(ctx, shipped_rules)
     # the shipped before/after corpus of tests/annet/test_patch (block-structured vendors), shipped rulebooks
     names = core.run_impl("c09_runner.py", [{"corpus_names": True}])[0]
@@ -530,10 +877,11 @@ def run(ctx):
     n_ftp = 0
     for c, o in zip(cases, outs):
         if c["kind"] == "corpus" and "compiled" in o:
+            ensure_modelled(compiled_pats(o["compiled"]))
             c["drules"] = rules_of_compiled(o["compiled"], [])
-            if any(w in ("ftp", "FTP") for p, _ in o.get("paths", []) for w in p[-1].split()):
-                o["skip"] = "commands of the 5 unmodelled huawei (ftp|FTP) rules"
-                n_ftp += 1
+        if o.get("touches_unmodelled"):
+            o["skip"] = "a command row is matched by a shipped deploy rule outside the modelled rule language"
+            n_ftp += 1
     bad = [i for i, o in enumerate(outs) if "fatal" in o or any("err" in r and r["err"] != "send_nl" for r in o.get("runs", []))]
     for i in bad[:1]:
         err = outs[i].get("fatal") or [r["err"] for r in outs[i]["runs"] if "err" in r][0]
@@ -573,7 +921,8 @@ def run(ctx):
                     what=f"Coq model and implementation differ on '{a}' (correspondence broken); P_C09 holds on every "
                          f"implementation output explored",
                     replay=dict(rep(j), correspondence=a), no_input=True))
-    # the witnesses of the refuted statements must behave on the real code as the theorems say
+    # the witnesses of the refuted statements / examples must behave on the real code as the theorems say
+    default_ms = default_timeout_ms()
     for j, c in enumerate(kc):
         if c["kind"] != "witness":
             continue
@@ -586,6 +935,14 @@ def run(ctx):
             ok = [x["timeout_ms"] for x in o["runs"][0].get("cmds", []) if x["cmd"] == "peer x"] == [11000]
         elif c["witness"] == "known:send_nl":
             ok = all(r.get("err") == "send_nl" for r in o["runs"])
+        elif c["witness"] == "C09_last_element_insufficient":
+            # the two `shutdown` commands: defaults under the interface, the nested rule's 120 s + dialog under bgp
+            ok = [(x["timeout_ms"], len(x["questions"])) for x in o["runs"][0].get("cmds", []) if x["cmd"] == "shutdown"] \
+                == [(default_ms, 0), (120000, 1)]
+        elif c["witness"] == "ex2_deploy":
+            r11 = [r for r in o["runs"] if r["dc"] and r["df"]][0]
+            ok = [x["cmd"] for x in r11.get("cmds", [])] == EX2_STREAM and \
+                [x["timeout_ms"] for x in r11.get("cmds", []) if x["cmd"] == "write memory"] == [45000] * 3
         if not ok:
             ctx.add_violation(core.Violation(
                 signature=f"C09/witness-not-reproduced/{c['witness']}",
@@ -609,6 +966,25 @@ def run(ctx):
                       for r in o["runs"][:1] for cmd in r.get("cmds", []))
         if d >= 2 and len(o["paths"]) >= 3 and (matched or c["kind"] != "synthetic" or not c["drules"]):
             nt += 1
+    # number of sessions (maximal runs of one wrapper) per command stream, and twin cases where one command text got
+    # different parameters under different paths
+    sess_hist: dict = {}
+    n_twin_diff = 0
+    for c, o in zip(kc, ko):
+        r0 = next((r for r in o["runs"] if "cmds" in r and r["dc"] and r["df"]), None)
+        if r0 is None or not r0["cmds"] or r0["common"] is None:
+            continue
+        # wrapper commands in the stream; more than the longer of the two wrappers => at least two sessions
+        extra = len(r0["cmds"]) - len(o["paths0"])
+        several = extra > max(len(w[0]) + len(w[1]) for w in (r0["common"], r0["ap_env"]))
+        if c["kind"] in ("sessions", "shipped", "synthetic"):
+            key = c["kind"] + (":several_sessions" if several else ":one_session")
+            sess_hist[key] = sess_hist.get(key, 0) + 1
+        if c["kind"] == "twin":
+            seen_p: dict = {}
+            for x in r0["cmds"]:
+                seen_p.setdefault(x["cmd"], set()).add((x["timeout_ms"], json.dumps(x["questions"])))
+            n_twin_diff += any(len(v_) > 1 for v_ in seen_p.values())
     outside = [j for j in res["wf"]]
     collapsed = [j for j in res["collapsed"]]
     ctx.coverage.update({
@@ -635,8 +1011,12 @@ def run(ctx):
         "unmodelled_shipped_rules": unmodelled,
         "refuted_witnesses_replayed_on_real_code": [c["witness"] for c in kc if c["kind"] == "witness"],
         "corpus_samples": sum(1 for c in kc if c["kind"] == "corpus"),
-        "corpus_samples_skipped": {"unmodelled_ftp_rules": n_ftp,
-                                   "no_patch": sum(1 for c, o in zip(cases, outs) if c["kind"] == "corpus" and "skip" in o) - n_ftp},
+        "cases_skipped_touching_unmodelled_rules": n_ftp,
+        "corpus_samples_skipped": {"no_patch": sum(1 for c, o in zip(cases, outs) if c["kind"] == "corpus" and "skip" in o
+                                                   and not o.get("touches_unmodelled"))},
+        "sessions_histogram": sess_hist,
+        "twin_cases_same_text_different_params": n_twin_diff,
+        "dialogs": dlg,
         "corpus_instances_outside_domain": [
             {"sample": kc[j]["corpus"], "vendor": kc[j]["vendor"], "shown_lines": len(ko[j]["lines"]),
              "sent_commands": len(ko[j]["paths"]),
@@ -644,7 +1024,10 @@ def run(ctx):
             for j in outside if kc[j]["kind"] == "corpus"],
     })
     ctx.assumptions += [
-        "rule patterns restricted to the plain rule language of Model/Pattern.v (C07); dialog question regexps are not run",
+        "deploy-rule rows are read with the extended rule language of Model/PatternY.v (C07); rows outside it are listed in "
+        "coverage.unmodelled_shipped_rules and cases touching them are skipped",
+        "dialog questions written as /re/ are modelled when every blank-separated word is a one-word regexp of Model/Pattern.v; "
+        "ASCII texts only",
         "hardware flags of the canonical model strings are read from the real HardwareView (C18 covers the resolution)",
         "the `timeout=` given to Command() inside apply() is always overwritten by fill_cmd_params and is not modelled",
     ]
@@ -653,6 +1036,22 @@ def run(ctx):
 def replay(ctx, doc):
     atoms, opaque = table_atoms()
     c = doc["replay"]["case"]
+    if doc["replay"].get("dialog_case"):
+        out = core.run_impl("c09_runner.py", [{k: c[k] for k in ("dlg", "vendor", "contents")}])[0]
+        if "fatal" in out:
+            print("impl:", out["fatal"])
+            return 1
+        res = core.run_case_files(ID, "obsdlg", IMPORTS, {"holds": "holds_dlg", "agree": "fun o => negb (modelled_dlg o) || agree_dlg o"},
+                                  [coq_obsdlg(out)], tag="replay_dlg")
+        print("impl runs:", [(r["content"], r["answer"], r["hits"]) for r in out["runs"]])
+        print("holds:", not res["holds"], "model agrees:", not res["agree"])
+        return 1 if res["holds"] or res["agree"] else 0
+    if c.get("deploying") is None:
+        rr = core.run_impl("c09_runner.py", [{"render": c["vendor"]}])[0]
+        ensure_modelled(compiled_pats(rr.get("compiled", [])))
+        um: list = []
+        rules_of_compiled(rr.get("compiled", []), um)
+        UNMODELLED[c["vendor"]] = um
     out = core.run_impl("c09_runner.py", [payload(c, atoms, opaque)])[0]
     if "fatal" in out:
         print("impl:", out["fatal"])
